@@ -101,7 +101,12 @@ class _middleware_wrapper(Generic[FnP, FnR]):  # noqa: N801
         signal_kwargs.update({"result": result})
 
         # emit `after` signal
-        await self._repid_signal_emitter(f"after_{self.name}", signal_kwargs)
+        try:
+            await self._repid_signal_emitter(f"after_{self.name}", signal_kwargs)
+        except CancelledError:
+            # the function has already taken effect: a subscriber which is interrupted
+            # must not make its result (e.g. a message which was just consumed) disappear
+            cancelled_after_completion = True
 
         if cancelled_after_completion and (this_task := current_task()) is not None:
             this_task.cancel()
